@@ -79,6 +79,7 @@ def Op.target : Op → Option Nat
   | .clone d _ => some d
   | .diff a _ | .intersect a _ | .merge a _ => some a
   | .addn r _ _ _ | .removen r _ _ _ => some r
+  | .reseq r _ _ _ => some r
   | _ => none
 
 /-- how a result of the one-memory machine corresponds to a result of the by-value machine:
@@ -336,6 +337,7 @@ theorem hstep1_sim (grow : Nat → Nat → Nat) (s : HSt) (op : Op) (hi : HInv s
   | addn r a d c => simp [hstep1, step1, Sim]
   | removen r a d c => simp [hstep1, step1, Sim]
   | str r => exact sim_ro grow s _ rfl hi
+  | reseq r a n b => simp [hstep1, step1, Sim]
 
 theorem Sim.pre (tgt : Option Nat) (s s1 : HSt) (hr : HRes) (r : Res)
     (h1 : ∀ (q : Nat) (o : HObj), tgt ≠ some q → s.regs[q]? = some o →
@@ -366,6 +368,45 @@ theorem sim_loopN (grow : Nat → Nat → Nat) (mk : Nat → Op) (r : Nat) (hmk 
     rw [← ha, ← ho]
     exact Sim.pre (some r) s _ _ _ hoth (ih _ _ _ _ hi')
 
+theorem Sim.weaken (r : Nat) (s : HSt) (hr : HRes) (x : Res) (h : Sim none s hr x) : Sim (some r) s hr x := by
+  cases hr <;> cases x <;> simp only [Sim] at h ⊢
+  exact ⟨h.1, h.2.1, h.2.2.1, fun q o _ hs => h.2.2.2 q o (by simp) hs⟩
+
+/-- three single steps in a row, each writing at most register `r` -/
+theorem sim_seq3 (grow : Nat → Nat → Nat) (r : Nat) (o1 o2 o3 : Op)
+    (h1 : o1.target = none ∨ o1.target = some r) (h2 : o2.target = none ∨ o2.target = some r)
+    (h3 : o3.target = none ∨ o3.target = some r) (s : HSt) (hi : HInv s) :
+    Sim (some r) s (hseq3 grow s o1 o2 o3) (seq3 s.abs o1 o2 o3) := by
+  have one : ∀ (o : Op), (o.target = none ∨ o.target = some r) → ∀ (t : HSt), HInv t →
+      Sim (some r) t (hstep1 grow t o) (step1 t.abs o) := by
+    intro o ho t ht
+    have := hstep1_sim grow t o ht
+    rcases ho with ho | ho <;> rw [ho] at this
+    · exact Sim.weaken r t _ _ this
+    · exact this
+  simp only [hseq3, seq3]
+  have a1 := one o1 h1 s hi
+  cases e1 : hstep1 grow s o1 <;> cases f1 : step1 s.abs o1 <;> rw [e1, f1] at a1 <;>
+    simp only [Sim] at a1 ⊢
+  obtain ⟨x1, ab1, hi1, ot1⟩ := a1
+  rename_i s1 _ t1 _
+  subst ab1
+  have a2 := one o2 h2 s1 hi1
+  cases e2 : hstep1 grow s1 o2 <;> cases f2 : step1 s1.abs o2 <;> rw [e2, f2] at a2 <;>
+    simp only [Sim] at a2 ⊢
+  obtain ⟨x2, ab2, hi2, ot2⟩ := a2
+  rename_i s2 _ t2 _
+  subst ab2
+  have a3 := one o3 h3 s2 hi2
+  cases e3 : hstep1 grow s2 o3 <;> cases f3 : step1 s2.abs o3 <;> rw [e3, f3] at a3 <;>
+    simp only [Sim] at a3 ⊢
+  obtain ⟨x3, ab3, hi3, ot3⟩ := a3
+  refine ⟨by rw [x1, x2, x3], ab3, hi3, fun q o hq hs => ?_⟩
+  obtain ⟨b1, c1⟩ := ot1 q o hq hs
+  obtain ⟨b2, c2⟩ := ot2 q o hq b1
+  obtain ⟨b3, c3⟩ := ot3 q o hq b2
+  exact ⟨b3, c3.trans (c2.trans c1)⟩
+
 /-- **Step refinement** for every operation, including the element-operation loops. -/
 theorem hstep_sim (grow : Nat → Nat → Nat) (s : HSt) (op : Op) (hi : HInv s) :
     Sim op.target s (hstep grow s op) (step s.abs op) := by
@@ -380,6 +421,8 @@ theorem hstep_sim (grow : Nat → Nat → Nat) (s : HSt) (op : Op) (hi : HInv s)
     by_cases hc : c = 0
     · simp [hc, Sim]
     · simp only [hc, if_false]; exact sim_loopN grow (.remove r) r (fun _ => rfl) c s a d 0 hi
+  | reseq r a n b =>
+    exact sim_seq3 grow r _ _ _ (.inl rfl) (.inr rfl) (.inl rfl) s hi
   | _ => exact hstep1_sim grow s _ hi
 
 theorem dead_eq (grow : Nat → Nat → Nat) (ls : List String) : hrunOps grow none ls = runOps none ls := by
